@@ -80,6 +80,26 @@ class SpecTask(Task):
             import threading
             with open(f"{where}.{os.getpid()}", "a") as fh:
                 fh.write(f"{os.getpid()} {threading.get_ident()}\n")
+        if self.data.get("raise_at"):
+            # an objective that fails part-way (the k-th evaluation on this task object): the call is aborted by the user's own exception
+            c_ = self.data["raise_count"] = self.data.get("raise_count", 0) + 1
+            if c_ == self.data["raise_at"]: raise RuntimeError("objective failed (scripted)")
+        nested = self.data.get("nested")
+        if nested:
+            # a bi-level objective: some evaluations run ANOTHER optimizer instance (of the given class) to completion before answering
+            cnt = self.data["nested_count"] = self.data.get("nested_count", 0) + 1
+            if cnt in nested["at"] and not self.data.get("nested_active"):
+                self.data["nested_active"] = True
+                try:
+                    import contextlib, io
+                    st_ = np.random.get_state()
+                    entry = next(e for e in registry() if e["name"] == nested["opt"])
+                    icls, icfg = load(entry, **nested.get("cfg", {}))
+                    with contextlib.redirect_stdout(io.StringIO()):
+                        icls(icfg).optimize(build_task(nested["task"]))
+                    np.random.set_state(st_)              # the inner run is invisible to the outer run's random stream
+                finally:
+                    self.data["nested_active"] = False
         if self.data.get("delay"):
             import time, zlib
             time.sleep((zlib.crc32(repr(x).encode()) % 7) * self.data["delay"])
@@ -129,11 +149,16 @@ def build_vars(vspecs, names=None):
 
 
 def build_task(t: dict, record: str | None = None):
-    data = {"obj": t["obj"], "record": record, "delay": t.get("delay")}
+    data = {"obj": t["obj"], "record": record, "delay": t.get("delay"), "nested": t.get("nested"), "raise_at": t.get("raise_at")}
     kw = {}
     if t.get("weights") is not None: kw["objective_weights"] = t["weights"]
     if t.get("seed") is not None: kw["seed"] = t["seed"]
-    return SpecTask(variables=build_vars(t["vars"], t.get("names")), minmax=t.get("minmax", "min"), data=data, **kw)
+    task = SpecTask(variables=build_vars(t["vars"], t.get("names")), minmax=t.get("minmax", "min"), data=data, **kw)
+    if t.get("raw_minmax"):
+        # the direction written as the documented STRING after construction (`task.minmax = "max"`): pydantic does not validate assignments, the field then holds the
+        # plain string; the library compares with `== TaskType.MIN ... else`, so such a task is a maximisation / minimisation task like any other
+        task.minmax = t.get("minmax", "min")
+    return task
 
 
 def cont_task(dim=3, lo=-10.0, hi=10.0, obj="sphere", minmax="min", seed=None, **kw):
@@ -177,12 +202,20 @@ def run_job(job: dict) -> dict:
         signal.signal(signal.SIGALRM, old)
 
 
+_KEEP_ALIVE: list = []
+
+
 def run_job_inner(job: dict) -> dict:
     """one optimize() call (or a sequence on one instance) -> observation"""
     import contextlib, io
     obs = {"job": job, "ok": False}
     rec = None
     try:
+        for pj in job.get("pre_jobs", []):                 # OTHER instances / tasks / variables used earlier in this interpreter (kept alive): they must not matter
+            po = run_job_inner({k_: v_ for k_, v_ in pj.items() if k_ not in ("pre_jobs", "record", "snapshots")})
+            obs.setdefault("pre_jobs_ok", []).append(bool(po.get("ok")))
+            _KEEP_ALIVE.append(po)
+            del _KEEP_ALIVE[:-40]
         entry = next(e for e in registry() if e["name"] == job["opt"])
         cls, cfg = load(entry, **job.get("cfg", {}))
         if job.get("record"):
@@ -234,6 +267,11 @@ def run_job_inner(job: dict) -> dict:
             o = cls(cfg0)
         elif job.get("via_set_config"):
             o = cls()
+            if job.get("refused_first") is not None:          # a call made before the instance has a configuration is refused - and must leave nothing behind
+                try:
+                    o.optimize(task, **job["refused_first"]); obs["refused_first"] = "accepted"
+                except Exception as e0:
+                    obs["refused_first"] = type(e0).__name__
             full = dict(entry["kwargs"]); full.update(job.get("cfg", {}))
             o.set_config_parameters(full)
             cfg = o.configuration
@@ -246,7 +284,7 @@ def run_job_inner(job: dict) -> dict:
             if job.get("workers"): kw["workers"] = job["workers"]
             for t0 in job.get("sequence", []):          # earlier runs on the same instance
                 try:
-                    o.optimize(build_task(t0["task"]), **({"mode": t0["mode"]} if t0.get("mode") else {}))
+                    o.optimize(build_task(t0["task"]), **({"mode": t0["mode"]} if t0.get("mode") else {}), **t0.get("kw", {}))
                 except Exception as e0:
                     obs.setdefault("sequence_errors", []).append(type(e0).__name__)
                 if t0.get("cfg"):                        # a different configuration for the next run (HyperTuner style)
